@@ -154,6 +154,16 @@ def check(run, prog, tier):
     from .. import typestate
     typestate.check(run, "C02-I", prog, prog.cls(RDM), "propagate", "propagate()")
 
+    run.rule("C02-J", "the requested expansion order reaches the routine that does the expansion: every routine that "
+                      "receives L and hands over to another routine with an order parameter passes it on", minimum=3)
+    from .. import apiexist
+    nfw = 0
+    for q in (RDM, SV):
+        nfw += apiexist.check_option_forwarding(run, "C02-J", prog, prog.cls(q), names={"L"},
+                                                what="every expansion order 2, 4, 6 is claimed")
+    if nfw < 3:
+        raise AnalysisError("C02-J: only %d delegations between routines with an order parameter found" % nfw)
+
     cls = prog.cls(RDM)
     nloops = 0
     routines = [f for name, f in cls.methods.items() if name.startswith("__propagate")]
